@@ -9,10 +9,16 @@ Definition rejected_is_error_statement : Prop :=
   forall F T E c, tables_ok T = true -> nodupb (map fst (c_annealer_params c)) = true -> nodupb (map fst (c_model_params c)) = true ->
     load F c <> Crash /\ forall l, load F c = Done l -> interpret F T E l <> Crash.
 
+(* the one panic left in interpretation: the multi-objective dumb model is constructed with initial values outside math.RoundFloat's
+   range (the oracle [e_round_ok]; listed finding of C18, reproduced there on the real code) *)
+Definition env_round_fails : env :=
+  mkEnv (e_fs ref_env) (e_data ref_env) (e_out_is_file ref_env) (e_out_usable ref_env) (e_profile_dir_ok ref_env) (e_profile_ok ref_env)
+        (e_excel ref_env) (fun _ => false).
+
 Lemma rejected_is_error_refuted : ~ rejected_is_error_statement.
 Proof.
   intro H.
-  destruct (H ref_facts ref_tables ref_env (kp_catchment [("DataSourcePath", VString "broken.csv")])
+  destruct (H ref_facts ref_tables env_round_fails (doc "P" "Suppapitnarm" [] "MultiObjectiveDumbModel" [])
               ltac:(vm_compute; reflexivity) ltac:(vm_compute; reflexivity) ltac:(vm_compute; reflexivity)) as [_ H2].
   refine (H2 _ ltac:(vm_compute; reflexivity) _). vm_compute. reflexivity.
 Qed.
@@ -22,14 +28,20 @@ Definition accepted_runs_statement : Prop :=
     load F c = Done l -> interpret F T E l = Done sc -> choices_ok sc choices ->
     exists summaries, run_model E sc choices T0 a = Completed summaries /\ List.length summaries = Z.to_nat (l_run_number l).
 
+(* what is left after the series C19-3 .. C19-13 is the run-time environment: here an output directory that does not exist yet
+   (so the interpreter has nothing to object to) and cannot be created when the first run finishes -- the saver panics *)
+Definition env_out_uncreatable : env :=
+  mkEnv (e_fs ref_env) (e_data ref_env) (fun _ => false) (fun _ => false) (e_profile_dir_ok ref_env) (e_profile_ok ref_env)
+        (e_excel ref_env) (e_round_ok ref_env).
+
 Lemma accepted_runs_refuted : ~ accepted_runs_statement.
 Proof.
   intro H.
-  pose (c := doc "P" "Suppapitnarm" [("MaximumIterations", VInt 3)] "NullModel" []).
+  pose (c := doc "P" "Suppapitnarm" [("MaximumIterations", VInt 3)] "DumbModel" []).
   destruct (load ref_facts c) as [l| |] eqn:L; try (vm_compute in L; discriminate).
-  destruct (interpret ref_facts ref_tables ref_env l) as [sc| |] eqn:I;
+  destruct (interpret ref_facts ref_tables env_out_uncreatable l) as [sc| |] eqn:I;
     try (vm_compute in L; inversion L; subst; vm_compute in I; discriminate).
-  destruct (H ref_facts ref_tables ref_env c l sc (fun _ => ref_choice) 1%float 1%float
+  destruct (H ref_facts ref_tables env_out_uncreatable c l sc (fun _ => ref_choice) 1%float 1%float
               ltac:(vm_compute; reflexivity) ltac:(vm_compute; reflexivity) L I) as (s & R & _).
   - vm_compute in L. inversion L; subst. vm_compute in I. inversion I; subst. exact Logic.I.
   - vm_compute in L. inversion L; subst. vm_compute in I. inversion I; subst. vm_compute in R. discriminate.
